@@ -80,6 +80,21 @@ CHECKS = {
          "Lin/Cubic/Akima splines, Table and the csg_resample executable run on ~2.5e5 (quick) generated data sets and grids; every verdict is a relation between outputs of the real code (no stored numbers). Held-on-observed.",
          "Trusted: tolerances scaled by data magnitude and grid spacing; periodic end conditions judged for interpolating splines (for fits only observed).",
          "DESIGN.md §5 C12"),
+ "C13": ("exploration",
+         "runtime monitoring: shadow-histogram reference model updated per processed value (nearest centre, half-step acceptance, modulo wrap), weight conservation and normalisation monitors; the memory half is decided by ASan + Eigen index assertions + UBSan float-cast-overflow on the real code (own build of the two TUs with -fno-builtin-floor); csg_density on unwrapped coordinates; abort-prone families run in their own processes",
+         "1.7e6 (quick) / 1.1e7 (thorough) processed values over (min,max,nbins) incl. nbins=1, values on bin edges (either outcome accepted), far outside the range up to +-1e300, exact negative multiples of the period, negative weights, periodic and not; legacy Histogram auto-range and bond/angle scalings on all-sign data. Held-on-observed.",
+         "Trusted: the shadow model; values within the rounding band of a bin edge are don't-care; normalisation judged for non-negative contents.",
+         "DESIGN.md §5 C13"),
+ "C16": ("exploration",
+         "runtime monitoring: reference BFS / union-find oracles and random relabelling (sparse large ids, random bead and edge insertion orders) against the real BeadStructure / graph algorithms; exhaustive enumeration of all simple graphs up to 6 vertices; ASan/UBSan",
+         "All 208 isomorphism classes up to 6 vertices x relabellings, structured classes up to 12 vertices, random graphs up to 60 vertices (2.8e3 quick / 4.6e4 thorough graph x relabelling cases): equivalence under relabelling, inequivalence after a name/mass change, shortest-path distances, components as partitions, reduce+expand lossless, single-network detection. Exhaustive for <= 6 vertices, sampled above.",
+         "Trusted: the reference BFS/union-find; fresh BeadStructure per monitor (the library leaves exploration labels in the graph it returns).",
+         "DESIGN.md §5 C16"),
+ "C18": ("exploration",
+         "runtime monitoring: dynamic-programming glob matcher as reference for tools::wildcmp (exhaustive over {a,b,*,?} x {a,b} up to length 6/7, random longer), direct enumeration oracle for RangeParser with a 1e6-step budget (non-termination is a verdict), print->parse round trip, malformed inputs, xtp IndexParser and BeadList selection; ASan/UBSan",
+         "2e6 (quick) / 9.4e7 (thorough) evaluations; the [-6,6]^3 begin:stride:end window and the small-alphabet pattern space are enumerated completely; forms whose status the statement leaves open (1::5, empty blocks) are observation counters only.",
+         "Trusted: the DP matcher and the enumeration oracle; budget-limited iteration runs in a way that a hang cannot take the run down.",
+         "DESIGN.md §5 C18"),
  "C19": ("exploration",
          "runtime monitoring: the real Perl/shell post-processing scripts run (perl -w, csg_call/csg_table for part of the runs) on generated tables, outputs compared with closed-form reference formulas; integrate/differentiate inverse pair through csg_resample",
          "640 (quick) / 16000 (thorough) script runs over update_ibi_pot, dist_boltzmann_invert, table_integrate/linearop/combine/scale/smooth/extrapolate, potential_shift with generated tables (zeros, undefined regions, all flags, kT range); point-wise formulas, flag semantics and discretisation bounds are judged. No sanitizer applies to the interpreters.",
